@@ -19,6 +19,8 @@ import (
 	"flag"
 	"fmt"
 	"os"
+	"os/exec"
+	"path/filepath"
 	"runtime"
 	"sort"
 	"strings"
@@ -65,6 +67,8 @@ type History struct {
 	Cfg    abci.Config
 	Extra  []string // extra kinds (genesis / hook features)
 	Blocks []BlockSpec
+	// GenesisMod edits the module genesis states before InitChain (time-keyed records to import ...)
+	GenesisMod func(app *simapp.SekaiApp, gs simapp.GenesisState)
 }
 
 type TxObs struct {
@@ -81,7 +85,7 @@ type BlockObs struct {
 	Hash    string            `json:"app_hash"`
 	Txs     []TxObs           `json:"txs"`
 	Updates string            `json:"validator_updates"`
-	Stores  map[string]string `json:"-"`
+	Stores  map[string]string `json:"stores,omitempty"`
 	Panics  []string          `json:"panics,omitempty"`
 }
 
@@ -215,9 +219,13 @@ func newAppOn(db dbm.DB) (*simapp.SekaiApp, simapp.EncodingConfig) {
 	return app, enc
 }
 
-func newChainOn(cfg abci.Config, db dbm.DB) *abci.Chain {
+func newChainOn(h *History, db dbm.DB) *abci.Chain {
+	cfg := h.Cfg
 	app, enc := newAppOn(db)
 	gs, accs, vals := abci.GenesisFor(app, cfg)
+	if h.GenesisMod != nil {
+		h.GenesisMod(app, gs)
+	}
 	bz, err := json.MarshalIndent(gs, "", " ")
 	if err != nil {
 		panic(err)
@@ -238,7 +246,7 @@ func restart(c *abci.Chain, db dbm.DB) *abci.Chain {
 // database in the middle of the history (the outcome must not depend on the process).
 func runReplica(h *History, r int) []BlockObs {
 	db := dbm.NewMemDB()
-	c := newChainOn(h.Cfg, db)
+	c := newChainOn(h, db)
 	var out []BlockObs
 	var off *offConsensus
 	if r == 1 {
@@ -256,7 +264,11 @@ func runReplica(h *History, r int) []BlockObs {
 			c = restart(c, db)
 		}
 		if b.SleepMs > 0 && r > 0 {
-			time.Sleep(time.Duration(r*b.SleepMs) * time.Millisecond)
+			m := r
+			if m > 2 {
+				m = 1 // the child-process replica runs concurrently with the in-process ones
+			}
+			time.Sleep(time.Duration(m*b.SleepMs) * time.Millisecond)
 		}
 		np := len(c.Panics)
 		c.BeginBlock(b.Req)
@@ -467,6 +479,92 @@ func emitReplicaCase(h *History, obs [][]BlockObs, seed uint64) (string, jCase) 
 	return fmt.Sprintf("CRep %s [%s]", strList(kinds), strings.Join(blocks, "; ")), jc
 }
 
+// ---------------------------------------------------------------- child-process replica (another host environment)
+
+const childIndex = 3
+
+type childReplica struct {
+	Shape  string     `json:"shape"`
+	Blocks []BlockObs `json:"blocks"`
+}
+
+type childResult struct {
+	Zone          string                  `json:"zone"`
+	OffsetSeconds int                     `json:"offset_seconds"`
+	Home          string                  `json:"home"`
+	Gomaxprocs    int                     `json:"gomaxprocs"`
+	Replicas      map[string]childReplica `json:"replicas"`
+}
+
+// historyShape: digest of the generated history (kinds, notes, block requests): parent and child
+// regenerate the histories from the seed and must obtain the same ones
+func historyShape(h *History) string {
+	var b strings.Builder
+	b.WriteString(h.Name + "|" + h.Class)
+	for _, bl := range h.Blocks {
+		fmt.Fprintf(&b, "|B%d,%d,%v,%v,%s", bl.Req.Dt, bl.Req.Proposer, bl.Req.Evidence, len(bl.Req.Absent), bl.HookName)
+		for _, t := range bl.Txs {
+			b.WriteString(";" + t.Kind + ":" + t.Note)
+			for _, m := range t.Msgs {
+				if bz, err := abciCodecMarshal(m); err == nil {
+					b.WriteString(short(bz))
+				}
+			}
+		}
+	}
+	return short([]byte(b.String()))
+}
+
+func abciCodecMarshal(m sdk.Msg) ([]byte, error) {
+	if pm, ok := m.(interface{ Marshal() ([]byte, error) }); ok {
+		return pm.Marshal()
+	}
+	return nil, fmt.Errorf("not a proto message")
+}
+
+// startChild re-executes this binary as a replica living on a "different host": local time zone
+// Asia/Tokyo (UTC+9), other HOME / HOSTNAME / locale, a single OS thread for goroutines.
+func startChild(outDir string, n, nrec int, only string) func() (*childResult, string) {
+	dir := filepath.Join(outDir, "child")
+	os.MkdirAll(dir, 0o755)
+	args := []string{"-replica-child", "-tz-offset", "32400", "-out", dir, "-n", fmt.Sprint(n), "-recipes", fmt.Sprint(nrec)}
+	if only != "" {
+		args = append(args, "-only", only)
+	}
+	cmd := exec.Command(os.Args[0], args...)
+	var env []string
+	for _, e := range os.Environ() {
+		if !strings.HasPrefix(e, "TZ=") && !strings.HasPrefix(e, "HOME=") && !strings.HasPrefix(e, "HOSTNAME=") && !strings.HasPrefix(e, "GOMAXPROCS=") && !strings.HasPrefix(e, "LANG=") && !strings.HasPrefix(e, "LC_ALL=") {
+			env = append(env, e)
+		}
+	}
+	cmd.Env = append(env, "TZ=Asia/Tokyo", "HOME="+dir, "HOSTNAME=replica-child", "GOMAXPROCS=1", "LANG=ja_JP.UTF-8", "LC_ALL=ja_JP.UTF-8")
+	cmd.Dir = dir
+	var buf strings.Builder
+	cmd.Stdout, cmd.Stderr = &buf, &buf
+	if err := cmd.Start(); err != nil {
+		return func() (*childResult, string) { return nil, err.Error() }
+	}
+	return func() (*childResult, string) {
+		if err := cmd.Wait(); err != nil {
+			o := buf.String()
+			if len(o) > 1500 {
+				o = o[len(o)-1500:]
+			}
+			return nil, err.Error() + ": " + o
+		}
+		bz, err := os.ReadFile(filepath.Join(dir, "replica.json"))
+		if err != nil {
+			return nil, err.Error()
+		}
+		var cr childResult
+		if err := json.Unmarshal(bz, &cr); err != nil {
+			return nil, err.Error()
+		}
+		return &cr, ""
+	}
+}
+
 // ---------------------------------------------------------------- message coverage
 
 var offStats = hx.Counter{} // off-consensus activity of replica 1 (all histories)
@@ -508,7 +606,15 @@ func main() {
 	k := flag.Int("k", 3, "replicas per history")
 	only := flag.String("only", "", "run only histories whose name contains this string")
 	nrec := flag.Int("recipes", 2, "repetitions of the conflicting-entries recipes (map-iteration sites)")
+	child := flag.Bool("replica-child", false, "internal: run as the child-process replica (other host environment) and write replica.json")
+	tzoff := flag.Int("tz-offset", 0, "internal: seconds east of UTC of the child's local zone")
+	nochild := flag.Bool("no-child", false, "do not start the child-process replica")
 	flag.Parse()
+	if *child {
+		// the HOST environment of this replica differs: local time zone (TZ is set by the parent; the fixed zone below
+		// makes sure of it even without a zoneinfo database), HOME, HOSTNAME, locale, GOMAXPROCS=1
+		time.Local = time.FixedZone(fmt.Sprintf("UTC%+d", *tzoff/3600), *tzoff)
+	}
 	out := hx.Out{Dir: *outDir}
 	seed := hx.Seed()
 	rng := hx.NewRng(seed)
@@ -524,11 +630,46 @@ func main() {
 	for i := 0; i < *n; i++ {
 		hs = append(hs, genHistory(rng.Fork(), seed, i))
 	}
+	var run []*History
 	for _, h := range hs {
-		if *only != "" && !strings.Contains(h.Name, *only) {
-			continue
+		if *only == "" || strings.Contains(h.Name, *only) {
+			run = append(run, h)
 		}
-		obs := runReplicas(h, *k)
+	}
+	if *child {
+		res := map[string]childReplica{}
+		for _, h := range run {
+			res[h.Name] = childReplica{Shape: historyShape(h), Blocks: runReplica(h, childIndex)}
+		}
+		_, off := time.Now().Zone()
+		out.WriteJSON("replica.json", childResult{Zone: time.Local.String(), OffsetSeconds: off, Home: os.Getenv("HOME"), Gomaxprocs: runtime.GOMAXPROCS(0), Replicas: res})
+		return
+	}
+	var childWait func() (*childResult, string)
+	if !*nochild {
+		childWait = startChild(*outDir, *n, *nrec, *only)
+	}
+	all := make([][][]BlockObs, len(run))
+	for i, h := range run {
+		all[i] = runReplicas(h, *k)
+	}
+	childInfo := map[string]interface{}{"started": childWait != nil}
+	if childWait != nil {
+		cr, cerr := childWait()
+		if cr == nil {
+			panic("child-process replica failed: " + cerr)
+		}
+		childInfo["zone"], childInfo["offset_seconds"], childInfo["home"], childInfo["gomaxprocs"] = cr.Zone, cr.OffsetSeconds, cr.Home, cr.Gomaxprocs
+		for i, h := range run {
+			c, ok := cr.Replicas[h.Name]
+			if !ok || c.Shape != historyShape(h) || len(c.Blocks) != len(h.Blocks) {
+				panic("child-process replica executed a different history for " + h.Name + " (generators must be deterministic)")
+			}
+			all[i] = append(all[i], c.Blocks)
+		}
+	}
+	for i, h := range run {
+		obs := all[i]
 		s, j := emitReplicaCase(h, obs, seed)
 		emit(s, j)
 		dist.Inc("history:" + h.Class)
@@ -599,6 +740,6 @@ func main() {
 	out.WriteFile("cases.txt", strings.Join(coq, "\n")+"\n")
 	out.WriteJSON("meta.json", map[string]string{"case_type": "c01_case", "mismatch_fn": "c01_mismatches", "violation_fn": "c01_violations"})
 	out.WriteJSON("cases.json", js)
-	out.WriteJSON("dist.json", map[string]interface{}{"seed": seed, "cases": len(js), "replicas": *k, "counts": dist, "message_types_per_module": mcov, "off_consensus_activity_replica_1": offStats, "query_methods": len(allQueries), "harness_seconds": time.Since(t0).Seconds()})
+	out.WriteJSON("dist.json", map[string]interface{}{"seed": seed, "cases": len(js), "replicas": *k, "counts": dist, "message_types_per_module": mcov, "off_consensus_activity_replica_1": offStats, "query_methods": len(allQueries), "child_process_replica": childInfo, "harness_seconds": time.Since(t0).Seconds()})
 	fmt.Fprintf(os.Stderr, "c01: %d cases in %.1fs\n", len(js), time.Since(t0).Seconds())
 }
